@@ -1217,6 +1217,31 @@ var ruleRouteLookupExemptions = ruleDeciding(decideSpec{
 	minimum: 3,
 })
 
+// R13d.routed — TypeURLMap.SetFromSchema: which fields of which definitions get a route. The
+// branch conditions on the way to the route write are R13d.exempt's; this instance adds what
+// that rule does not follow: the lists the loops range over (a helper that hands back "the
+// routable fields" of a definition decides as much as a `continue` in the loop does).
+var ruleRoutedFields = ruleDeciding(decideSpec{
+	rule:   "R13d.routed",
+	anchor: "merger.(TypeURLMap).SetFromSchema",
+	target: callTo("merger.(TypeURLMap).Set"),
+	calls: map[string]string{
+		"common.IsBuiltinName":     "introspection names are answered by the gateway itself",
+		"common.IsQueryObjectName": "scope of the node-lookup exemption (R13d.scope)",
+		"merger.isNodeField":       "the relay lookup `node` of Query is planned by the gateway itself (R13d.sig, R13d.scope)",
+	},
+	kinds: map[string]string{
+		"SCALAR":       "only object types have fields that are routed",
+		"ENUM":         "only object types have fields that are routed",
+		"INPUT_OBJECT": "only object types have fields that are routed",
+		"UNION":        "only object types have fields that are routed (members are object types with routes of their own)",
+		"INTERFACE":    "only object types have fields that are routed (implementations are object types with routes of their own)",
+	},
+	what:    "whether a field of a definition is given a route",
+	effect:  "a field for which it decides against the route stays in the gateway's schema without one — every `id: ID!`, for instance, root fields called id included, when the list of a type's fields is filtered by the relay-id predicate before the routing loop sees it",
+	minimum: 3,
+})
+
 // R12d.cond — setIMap: which requests of a batch are de-duplicated.
 var ruleDedupConditions = ruleDeciding(decideSpec{
 	rule:   "R12d.cond",
